@@ -585,6 +585,16 @@ func c20CasTokenForwarded(k *eng.Check) {
 // when the journal has no root record yet, so a proposed root published early survives a crash that loses its chunks.
 func c03RootNotPublishedEarly(k *eng.Check) {
 	c := k.C
+	// crash consistency of a commit that changes both the table-file set and the root: the root record is written
+	// only after the changed table-file set reached the backing manifest (same obligation as C02's, which states it
+	// as a commit-ordering clause; here it is the crash-point clause: a root record must never name table files the
+	// manifest does not list)
+	if up := k.Fn("(*store/nbs.ChunkJournal).Update"); up != nil {
+		cr := eng.CallSet(up, eng.Static("(*store/nbs.journalWriter).commitRootHash"))
+		flush := k.OkCalls(up, "flush", eng.Static("(*store/nbs.ChunkJournal).flushToBackingManifest"))
+		sameSpecs := eng.CondEdgesP(up, func(v ssa.Value) bool { return eng.Mentions(v, eng.IsCall(eng.Static("store/nbs.equalSpecs"))) }, true)
+		k.OnlyAfter("journal-specs-first", up, "the journal root record is written only after a changed table-file set was flushed to the backing manifest", cr, 1, eng.UnionOf(flush, sameSpecs))
+	}
 	fn := k.Fn("(*store/nbs.ChunkJournal).flushToBackingManifest")
 	if fn == nil {
 		return
